@@ -8,7 +8,15 @@ import (
 	"sort"
 	"strconv"
 	"strings"
+	"sync"
 )
+
+func firstLine(s string) string {
+	if i := strings.Index(s, "\n"); i >= 0 {
+		return s[:i]
+	}
+	return s
+}
 
 // Thorough tier.
 //
@@ -94,45 +102,79 @@ func thorough(prop *Property, p *Prog, rep *Report, repo string) {
 	type result struct{ id, outcome, detail string }
 	var results []result
 	fired, quietOK, skipped, total := 0, 0, 0, 0
+	type job struct {
+		id      string
+		overlay map[string][]byte
+		quiet   bool
+		expect  string
+	}
+	var jobs []job
 	runVariant := func(id string, overlay map[string][]byte, quiet bool, expect string) {
 		total++
-		pv, err := Load(repo, overlay)
-		if err != nil {
-			skipped++
-			results = append(results, result{id, "skipped", "does not type-check on the current tree: " + err.Error()})
-			return
+		jobs = append(jobs, job{id, overlay, quiet, expect})
+	}
+	type jobOut struct {
+		loadErr error
+		fail    []Obligation
+	}
+	runJobs := func() {
+		outs := make([]jobOut, len(jobs))
+		sem := make(chan struct{}, 8)
+		var wg sync.WaitGroup
+		for i := range jobs {
+			wg.Add(1)
+			sem <- struct{}{}
+			go func(i int) {
+				defer wg.Done()
+				defer func() { <-sem }()
+				pv, err := Load(repo, jobs[i].overlay)
+				if err != nil {
+					outs[i].loadErr = err
+					return
+				}
+				rv := NewReport()
+				runRules(prop, pv, rv)
+				rv.CheckFloors()
+				outs[i].fail = failing(rv, known, prop.ID)
+			}(i)
 		}
-		rv := NewReport()
-		runRules(prop, pv, rv)
-		rv.CheckFloors()
-		f := failing(rv, known, prop.ID)
-		if quiet {
-			if len(f) == 0 {
-				quietOK++
-				results = append(results, result{id, "quiet", "no verdict changed"})
-			} else {
-				results = append(results, result{id, "FALSE-ALARM", f[0].Key + ": " + f[0].Detail})
-				rep.Add(Obligation{Rule: "selftest", Key: "selftest:quiet:" + id, Status: Undecided, Nontrivial: true,
-					Detail: "a behaviour-preserving rewrite makes the check fail (" + f[0].Key + "): the rule is brittle — " + f[0].Detail})
+		wg.Wait()
+		for i, j := range jobs {
+			o := outs[i]
+			if o.loadErr != nil {
+				skipped++
+				results = append(results, result{j.id, "skipped", "does not type-check on the current tree: " + firstLine(o.loadErr.Error())})
+				continue
 			}
-			return
-		}
-		hit := len(f) > 0
-		if expect != "" {
-			hit = false
-			for _, o := range f {
-				if strings.Contains(o.Key, expect) {
-					hit = true
+			f := o.fail
+			if j.quiet {
+				if len(f) == 0 {
+					quietOK++
+					results = append(results, result{j.id, "quiet", "no verdict changed"})
+				} else {
+					results = append(results, result{j.id, "FALSE-ALARM", f[0].Key + ": " + f[0].Detail})
+					rep.Add(Obligation{Rule: "selftest", Key: "selftest:quiet:" + j.id, Status: Undecided, Nontrivial: true,
+						Detail: "a behaviour-preserving rewrite makes the check fail (" + f[0].Key + "): the rule is brittle — " + f[0].Detail})
+				}
+				continue
+			}
+			hit := len(f) > 0
+			if j.expect != "" {
+				hit = false
+				for _, o := range f {
+					if strings.Contains(o.Key, j.expect) {
+						hit = true
+					}
 				}
 			}
-		}
-		if hit {
-			fired++
-			results = append(results, result{id, "detected", f[0].Key})
-		} else {
-			results = append(results, result{id, "MISSED", "no obligation failed"})
-			rep.Add(Obligation{Rule: "selftest", Key: "selftest:missed:" + id, Status: Undecided, Nontrivial: true,
-				Detail: "a change known to break this property is not reported by its rules: the machinery has lost an instance"})
+			if hit {
+				fired++
+				results = append(results, result{j.id, "detected", f[0].Key})
+			} else {
+				results = append(results, result{j.id, "MISSED", "no obligation failed"})
+				rep.Add(Obligation{Rule: "selftest", Key: "selftest:missed:" + j.id, Status: Undecided, Nontrivial: true,
+					Detail: "a change known to break this property is not reported by its rules: the machinery has lost an instance"})
+			}
 		}
 	}
 	// seeded changes (unified diffs)
@@ -208,6 +250,7 @@ func thorough(prop *Property, p *Prog, rep *Report, repo string) {
 			runVariant(v.ID, ov, v.Quiet, v.Expect)
 		}
 	}
+	runJobs()
 	var lines []string
 	for _, r := range results {
 		lines = append(lines, fmt.Sprintf("%s: %s (%s)", r.id, r.outcome, r.detail))
